@@ -118,3 +118,74 @@ def observe(data: bytes, html: bool, dup: bool, want=None):
         try: d.close()
         except Exception: pass
     return out
+
+
+# C02_post_part, on the implementation: with duplicate_merged_cells=False the records of a part are the w:p elements the walk
+# descends to (nothing below hyperlinks, equations and comment markers), each once, in the order of their closing tags
+NO_DESCENT = {'w:hyperlink', 'm:oMath', 'w:commentRangeStart', 'w:commentRangeEnd'}
+
+
+def _ptag(e): return f"{e.prefix}:{etree.QName(e.tag).localname}"
+
+
+def _post(e, out):
+    if not isinstance(e.tag, str): return
+    t = _ptag(e)
+    if t not in NO_DESCENT:
+        for k in e: _post(k, out)
+    if t == 'w:p': out.append(e)
+
+
+def _pre(e, out):
+    if not isinstance(e.tag, str): return
+    t = _ptag(e)
+    if t == 'w:p': out.append(e)
+    if t not in NO_DESCENT:
+        for k in e: _pre(k, out)
+
+
+def closing_order(data: bytes, dup: bool = False):
+    """with dup=True the copies that fill merged cells (records whose element is not an element of the part) are skipped;
+    {'types': {type: {'expected': [[path, k]...], 'got': [...]}}, 'paths': {path: {'post': [[path, k]...], 'flat': bool}}} or {'err': ...}"""
+    from docx2python import docx2python
+    from docx2python.depth_collector import Par
+    out = {'types': {}, 'paths': {}}
+    with warnings.catch_warnings():
+        warnings.simplefilter('ignore')
+        try:
+            d = docx2python(io.BytesIO(data), html=False, duplicate_merged_cells=dup)
+        except Exception as e:
+            return {'err': type(e).__name__}
+        try:
+            rd = d.docx_reader
+            for ty, attr in (('header', 'header_pars'), ('officeDocument', 'body_pars'), ('footer', 'footer_pars'),
+                             ('footnotes', 'footnotes_pars'), ('endnotes', 'endnotes_pars')):
+                exp, ords = [], {}
+                for f in rd.files_of_type(ty):
+                    om = _ord_map(f.root_element)
+                    ords.update({e: [f.path, k] for e, k in om.items()})
+                    po, pr = [], []
+                    _post(f.root_element, po); _pre(f.root_element, pr)
+                    leaves = []
+                    for e in pr:
+                        sub = []
+                        for k in e: _post(k, sub)
+                        if not sub: leaves.append(e)
+                    out['paths'][f.path] = {'post': [[f.path, om[e]] for e in po], 'flat': leaves == pr}
+                    exp += [[f.path, om[e]] for e in po]
+                got = []
+
+                def flat(x):
+                    if isinstance(x, list):
+                        for y in x: flat(y)
+                    elif isinstance(x, Par):
+                        if x.elem is not None and (x.elem in ords or not dup): got.append(ords.get(x.elem, ['?', -1]))
+                    else: got.append(['?' + type(x).__name__, -1])
+                flat(getattr(d, attr))
+                out['types'][ty] = {'expected': exp, 'got': got}
+        except Exception as e:
+            out = {'err': type(e).__name__ + ': ' + str(e)[:120]}
+        try: d.close()
+        except Exception: pass
+    return out
+
